@@ -189,6 +189,12 @@ func decryptMsg(
 	if ikesaKey.Encr_i == nil {
 		return nil, errors.Errorf("decryptMsg(): No initiator's encryption key")
 	}
+	if ikesaKey.Integ_r == nil {
+		return nil, errors.Errorf("decryptMsg(): No responder's integrity key")
+	}
+	if ikesaKey.Encr_r == nil {
+		return nil, errors.Errorf("decryptMsg(): No responder's encryption key")
+	}
 
 	var encryptedPayload *message.Encrypted
 	for _, ikePayload := range ikeMsg.Payloads {
